@@ -316,10 +316,89 @@ def rule_5(ctx):
     ctx.floor(14, 'basis x order')
 
 
+def _rrule_model(freq, dtstart=None, until=None, **kw):
+    """dateutil.rrule.rrule(freq, dtstart, until) for YEARLY / MONTHLY / DAILY, interval 1: the occurrences dtstart + k periods that
+    exist in the calendar (a day that a month / year does not have is skipped), up to and including `until` (documented behaviour)."""
+    import datetime as dt
+    name = freq.ref.rpartition('.')[2] if isinstance(freq, Ref) else str(freq)
+    if kw or not isinstance(dtstart, dt.datetime) or not isinstance(until, dt.datetime):
+        raise Unmodelled('rrule with other arguments than (freq, dtstart, until)')
+    out = []
+    k = 0
+    while True:
+        if name == 'DAILY':
+            cand = dtstart + dt.timedelta(days=k)
+        elif name == 'MONTHLY':
+            mm_ = dtstart.month - 1 + k
+            try:
+                cand = dtstart.replace(year=dtstart.year + mm_ // 12, month=mm_ % 12 + 1)
+            except ValueError:
+                cand = None
+                if dtstart.year + mm_ // 12 > until.year + 1:
+                    break
+        elif name == 'YEARLY':
+            try:
+                cand = dtstart.replace(year=dtstart.year + k)
+            except ValueError:
+                cand = None
+                if dtstart.year + k > until.year + 1:
+                    break
+        else:
+            raise Unmodelled(f'rrule frequency {name}')
+        k += 1
+        if cand is None:
+            continue
+        if cand > until:
+            break
+        out.append(cand)
+        if len(out) > 200000:
+            raise Unmodelled('rrule with more than 200000 occurrences')
+    return out
+
+
+def _serial(y, m, d):
+    import datetime as dt
+    return (dt.date(y, m, d) - dt.date(1899, 12, 30)).days
+
+
+def rule_6(ctx):
+    """DATEDIF as the evaluator calls it on critical date pairs: one day before / on / after an anniversary, across leap years,
+    for the complete-years, complete-months and days units (the calendar recurrence of dateutil is modelled by its documented
+    semantics; everything else is the function as written)."""
+    import datetime as dt
+    from . import values as V
+    f = V.registered(ctx, 'DATEDIF')
+
+    def years(a, b):
+        n = b.year - a.year
+        return n - 1 if (b.month, b.day) < (a.month, a.day) else n
+
+    def months(a, b):
+        n = (b.year - a.year) * 12 + b.month - a.month
+        return n - 1 if b.day < a.day else n
+    pairs = [((2012, 3, 1), (2013, 2, 28)), ((2012, 3, 1), (2013, 3, 1)), ((2012, 3, 1), (2013, 3, 2)), ((2011, 6, 15), (2012, 6, 14)),
+             ((2011, 6, 15), (2012, 6, 15)), ((2011, 6, 15), (2012, 6, 16)), ((2000, 1, 28), (2003, 1, 27)), ((2000, 1, 28), (2003, 1, 28)),
+             ((2015, 12, 20), (2016, 12, 19)), ((2015, 12, 20), (2016, 12, 20)), ((2001, 5, 10), (2001, 5, 10)), ((1999, 7, 4), (2004, 7, 3))]
+    n = 0
+    for a, b in pairs:
+        da, db = dt.date(*a), dt.date(*b)
+        for unit, want in (('Y', years(da, db)), ('M', months(da, db)), ('D', (db - da).days)):
+            out = V.call(ctx, 'DATEDIF', [V.num(_serial(*a)), V.num(_serial(*b)), V.text(unit)], models={'ext:dateutil.rrule.rrule': _rrule_model})
+            got = V.norm(out.value) if out.end == 'return' else f'<{out.end} {out.value!r}>'
+            if isinstance(got, tuple) and got and got[0] == 'Number':
+                got = got[1]
+            n += 1
+            ctx.expect(got == want, f.node, f'DATEDIF({da.isoformat()}, {db.isoformat()}, "{unit}")',
+                       f'DATEDIF({da.isoformat()}, {db.isoformat()}, "{unit}") gives {got!r}, expected {want!r}: complete years / months are counted by '
+                       'calendar anniversaries (month and day), days by the difference of the serials')
+    ctx.floor(n, 'date pairs x units')
+
+
 RULES = [
     ('C18.1', 'serial <-> date: leap-day offsets at critical points, time-of-day coefficients', rule_1),
     ('C18.2', 'epoch and year-range guards', rule_2),
     ('C18.3', 'WEEKDAY return-type tables', rule_3),
     ('C18.4', 'serials are truncated alike', rule_4),
     ('C18.5', 'YEARFRAC basis dispatch', rule_5),
+    ('C18.6', 'DATEDIF on critical date pairs (anniversary -1/0/+1 day, leap years) through the registered wrapper', rule_6),
 ]
